@@ -53,6 +53,48 @@ def implements_doit(cls) -> bool:
     return d is not None and d is not sp.Basic.doit and hasattr(d, "__wrapped__")
 
 
+def make_phsp_factor(power):
+    """Factory of custom phase-space factors (PhaseSpaceFactorProtocol): every call returns a NEW
+    function object with the SAME module and qualified name."""
+
+    def phsp_factor(s, m1, m2):
+        from ampform.dynamics.phasespace import PhaseSpaceFactor
+
+        return PhaseSpaceFactor(s, m1, m2) ** power
+
+    return phsp_factor
+
+
+def module_level_phsp(s, m1, m2):
+    """A module-level function used as callable attribute (picklable by reference)."""
+    from ampform.dynamics.phasespace import PhaseSpaceFactorComplex
+
+    return 2 * PhaseSpaceFactorComplex(s, m1, m2)
+
+
+def _two_lambdas():
+    from ampform.dynamics.phasespace import BreakupMomentumSquared, PhaseSpaceFactorAbs
+
+    return (lambda s, m1, m2: PhaseSpaceFactorAbs(s, m1, m2), lambda s, m1, m2: BreakupMomentumSquared(s, m1, m2) + 1)  # noqa: E731
+
+
+_FUNCTION_VALUES: list = []
+
+
+def function_values() -> list:
+    """Function-valued attribute values: closures of one factory with different captured constants
+    (distinct objects, one qualname), two lambdas of one scope, a module-level function."""
+    if not _FUNCTION_VALUES:
+        _FUNCTION_VALUES.extend([make_phsp_factor(1), make_phsp_factor(2), *_two_lambdas(), module_level_phsp])
+    return _FUNCTION_VALUES
+
+
+def is_picklable_attr(v) -> bool:
+    if inspect.isfunction(v):
+        return "<locals>" not in v.__qualname__ and "<lambda>" not in v.__qualname__
+    return True
+
+
 def attr_candidates(cls, field, decorated) -> list:
     """Python values tried for a non-SymPy field (the first one is the default, if any)."""
     out = []
@@ -64,6 +106,8 @@ def attr_candidates(cls, field, decorated) -> list:
         for c in decorated:
             if c is not d and names is not None and [f.name for f in dataclasses.fields(c)] == names:
                 out.append(c)
+        # a class-valued default is a callable attribute: plain functions are admissible values too
+        out[1:1] = function_values()
     else:
         for v in (None, "tag", "builtins.NoneType"):
             if v not in out:
@@ -97,9 +141,22 @@ class ClassEntry:
         vals = [next(it_s) if f.metadata.get("sympify") else next(it_a) for f in self.fields]
         return self.cls(*vals)
 
-    def attr_combos(self, limit=12):
-        combos = list(itertools.product(*self.attr_domain)) if self.attr_domain else [()]
-        return combos[:limit]
+    def attr_combos(self, limit=24):
+        """Attribute values for which a template is extracted: every value of every field at least
+        once (the other fields at their first value), then further combinations up to `limit`."""
+        if not self.attr_domain:
+            return [()]
+        base = tuple(dom[0] for dom in self.attr_domain)
+        combos = [base]
+        for i, dom in enumerate(self.attr_domain):
+            for v in dom[1:]:
+                combos.append((*base[:i], v, *base[i + 1:]))
+        for c in itertools.product(*self.attr_domain):
+            if len(combos) >= limit:
+                break
+            if not any(all(a is b for a, b in zip(c, d)) for d in combos):
+                combos.append(c)
+        return combos[:max(limit, len(base) + sum(len(d) - 1 for d in self.attr_domain))]
 
 
 def sample_args(entry: ClassEntry, rng, n: int):
@@ -318,12 +375,13 @@ SOURCES = [
 class Pools:
     """Argument pools (real SymPy objects) for random instances."""
 
-    def __init__(self, entries, friendly: bool = False):
+    def __init__(self, entries, friendly: bool = False, picklable_only: bool = False):
         import sympy as sp
 
         from ampform.kinematics.lorentz import FourMomentumSymbol
 
         self.entries = entries
+        self.picklable_only = picklable_only  # C15: closures and lambdas cannot be pickled by Python itself
         self.friendly = friendly  # oracle mode: arguments that keep doit()/numeric evaluation tractable
         self.scalars = [sp.Symbol("x"), sp.Symbol("y", real=True), sp.Symbol("m", positive=True), sp.Symbol("s", nonnegative=True),
                         sp.Symbol("w"), sp.Symbol("L", integer=True, nonnegative=True)]
@@ -378,8 +436,29 @@ class Pools:
 
     def instance_of(self, entry: ClassEntry, rng, depth):
         args = [self.arg_for(f.name, rng, depth) for f in entry.sympy_fields]
-        attrs = tuple(rng.choice(dom) for dom in entry.attr_domain)
+        attrs = self.attrs_for(entry, rng)
         return entry.build(*args, attrs=attrs)
+
+    def function_attr_instances(self, entry: ClassEntry, rng, depth=1):
+        """One instance per function-valued candidate of every callable attribute (so that pairs of
+        distinct functions with one qualified name, and the same function twice, are always compared)."""
+        out = []
+        for i, dom in enumerate(entry.attr_domain):
+            for v in dom:
+                if inspect.isfunction(v) and (not self.picklable_only or is_picklable_attr(v)):
+                    args = [self.arg_for(f.name, rng, depth) for f in entry.sympy_fields]
+                    attrs = [d[0] for d in entry.attr_domain]
+                    attrs[i] = v
+                    out.append(entry.build(*args, attrs=tuple(attrs)))
+        return out
+
+    def attrs_for(self, entry: ClassEntry, rng):
+        doms = [[v for v in dom if not self.picklable_only or is_picklable_attr(v)] for dom in entry.attr_domain]
+        if entry.templates and rng.random() < 0.7:
+            combos = [c for c in entry.attr_combos() if all(any(v is w for w in d) for v, d in zip(c, doms))]
+            if combos:
+                return rng.choice(combos)
+        return tuple(rng.choice(dom) for dom in doms)
 
     def instance(self, rng, depth, scalar_only=False):
         cands = [e for e in self.entries if not scalar_only or self.is_scalar_class(e)]
@@ -420,6 +499,18 @@ class Pools:
 
     def entry(self, short: str) -> ClassEntry:
         return next(e for e in self.entries if e.cls.__name__ == short)
+
+
+def has_unpicklable_attr(expr) -> bool:
+    """Does the term hold a closure/lambda as non-SymPy attribute (Python cannot pickle those)?"""
+    import sympy as sp
+
+    for node in sp.preorder_traversal(expr):
+        if m1.is_unevaluated_class(type(node)):
+            for f in dataclasses.fields(type(node)):
+                if not f.metadata.get("sympify") and not is_picklable_attr(getattr(node, f.name)):
+                    return True
+    return False
 
 
 def symbols_in(expr):
@@ -499,7 +590,7 @@ def correspondence(chk: common.Check, rng, n_per_class: int, entries, helpers, c
     pools = Pools(entries)
     lines = [f"(variant {variant[0]} {variant[1]})", "(wftable)"]
     plan: list[dict] = []
-    stats = {"instances": 0, "per_class": n_per_class, "nested_unevaluated_args": 0, "non_default_attrs": 0,
+    stats = {"instances": 0, "per_class": n_per_class, "nested_unevaluated_args": 0, "non_default_attrs": 0, "function_valued_attrs": 0,
              "evaluate_raised_on_random_args": 0, "ops": {}, "helper_instances": 0, "unrepresentable": 0}
     notes: list[dict] = []
 
@@ -512,6 +603,7 @@ def correspondence(chk: common.Check, rng, n_per_class: int, entries, helpers, c
     for entry in entries:
         for _ in range(n_per_class):
             subjects.append((entry, pools.instance_of(entry, rng, 2)))
+        subjects += [(entry, r) for r in pools.function_attr_instances(entry, rng)]
     helper_objs = pools.helper_instances(rng)
     known_helpers = {h.__name__ for h in helpers}
     for name, obj in helper_objs.items():
@@ -534,6 +626,7 @@ def correspondence(chk: common.Check, rng, n_per_class: int, entries, helpers, c
         if entry is not None:
             stats["nested_unevaluated_args"] += sum(1 for a in r.args if m1.is_unevaluated_class(type(a)))
             stats["non_default_attrs"] += sum(1 for f in entry.attr_fields if getattr(r, f.name) is not f.default and getattr(r, f.name) != f.default)
+            stats["function_valued_attrs"] += sum(1 for f in entry.attr_fields if inspect.isfunction(getattr(r, f.name)))
         key = (entry.key if entry else "helper:" + type(r).__name__)
         sigma = gen_map(pools, rng, r)
         ps = pairs_str(sigma.items(), ctx)
@@ -542,7 +635,10 @@ def correspondence(chk: common.Check, rng, n_per_class: int, entries, helpers, c
         seq = list(sigma.items())
         add(f"(subs {s} {ps})", op="subs", key=key, real=_try(lambda: r.subs(seq)), expr=r, sigma=sigma)
         add(f"(rebuild {s})", op="rebuild", key=key, real=_try(lambda: r.func(*r.args)), expr=r)
-        add(f"(roundtrip {s})", op="roundtrip", key=key, real=_try(lambda: pickle.loads(pickle.dumps(r))), expr=r)  # noqa: S301
+        if has_unpicklable_attr(r):
+            stats["function_valued_attrs_not_picklable_by_python"] = stats.get("function_valued_attrs_not_picklable_by_python", 0) + 1
+        else:
+            add(f"(roundtrip {s})", op="roundtrip", key=key, real=_try(lambda: pickle.loads(pickle.dumps(r))), expr=r)  # noqa: S301
         if entry is not None:
             attrs = tuple(m1.attr_of(getattr(r, f.name), ctx) for f in entry.attr_fields)
             if any(a == attrs for a, _ in entry.templates):
